@@ -133,7 +133,10 @@ META = {
              "(excludes exactly the known finding's A->B->A shape); its statement is kept as a comment in Props/C20 section N; it needs "
              "a run-compressed invariant relative to the source (one stored entry stands for a range of source versions with "
              "identical stored form) preserved by the skip, by aggregator restarts and by deliveries to an agent ahead of the "
-             "aggregator; not attempted in the last time box. A compact replica may keep an older "
+             "aggregator. Proved of it (entry level, `two_hop_converges_compact_no_return_partial`, `covers_skip`, `covers_shrink`, "
+             "`covers_restart_then_skip`, `covers_fresh`): a stored entry read as a run of source versions with identical stored form is "
+             "shortened by a restart and extended by the skip of a later version with the same form (needs NoReturn; fails on the "
+             "finding's history); missing: lifting this to a journal/chain invariant through applyUpdate and deliveries. A compact replica may keep an older "
              "version number for an entity whose compact form did not change (content equality, not version equality, is proved "
              "for compact journals). Earlier defect (fixed in /repo as ebafde2e, fixes/C20-name-index.diff): ApplyEvent deleted the "
              "old name unconditionally on rename and rebuilt the metric name index from the id index in map order."),
